@@ -21,7 +21,7 @@ def sh(cmd, cwd=None, env=None):
 
 def main():
     out_path = os.path.join(VERIF, "seeded", "fixrecheck.json")
-    res = {}
+    res = json.load(open(out_path)) if os.path.exists(out_path) else {}
     only = set(sys.argv[1:])
     for line in open(os.path.join(VERIF, "known_findings.jsonl")):
         m = re.match(r"fixed: property=(C\d+) ([0-9a-f]{7,}) (.*)", line)
